@@ -375,11 +375,10 @@ impl TransactionCoordinator {
         // xmin is the smallest active transaction ID (or our ID if none active)
         let xmin = active.iter().min().copied().unwrap_or(txid);
 
-        // xmax is the last committed transaction from PageZero
-        let xmax = {
-            let last = self.get_last_committed();
-            if last == 0 { None } else { Some(last) }
-        };
+        // xmax is the last committed transaction from PageZero. It is always a bound: with
+        // `None` (no upper bound) a snapshot taken before any transaction other than 0 had
+        // committed treated every transaction that began later as committed.
+        let xmax = Some(self.get_last_committed());
 
         Ok(Snapshot::new(txid, xmin, xmax, active, aborted))
     }
